@@ -101,9 +101,9 @@ func e2Family(tier string, amevs []int64) []*Job {
 			if x == other {
 				// a missing transaction reaches the pool (GetTx) before / instead of OnTransaction: the set is then
 				// completed by processMissingTx inside a recovery request (found D15 this way)
-				s3 := E2Spec{Views: 1, Proposals: "A", TxA: []H{103}, Responses: "A", Commits: "AG", PreCommits: func() string {
+				s3 := E2Spec{Views: 1, Proposals: "A", TxA: []H{103}, Responses: "A", Commits: "AGW", PreCommits: func() string {
 					if a >= 0 {
-						return "AG"
+						return "AGW"
 					}
 					return ""
 				}(), PoolFirst: true, ForeignTx: true, MaxDepth: 10, StateCap: cap1}
@@ -141,11 +141,26 @@ func e2Family(tier string, amevs []int64) []*Job {
 				s9 := E2Spec{Views: 1, Proposals: "A", Responses: "A", Commits: "AG", PreCommits: "AG", LedgerFirst: true, Heights: 2, MaxDepth: 8, StateCap: cap1}
 				jobs = append(jobs, job(e2scen(fmt.Sprintf("E2-ledger-ahead-of-consensus-N4-x%d-%s-%s", x, role, an), 4, x, a, s9), per))
 			}
+			if x == other {
+				// a rejected, late-completed proposal makes the node change view *inside* a timeout / recovery request
+				// (pool-first transactions, M-1 change views already stored, next view's proposal cached)
+				s12 := E2Spec{Views: 2, Proposals: "A", TxA: []H{102, 103}, TxA1: []H{101}, CVs: 1, CVViews: 1, RespPeers: 2, Responses: "A", PoolFirst: true, MaxDepth: 9, StateCap: cap1}
+				jobs = append(jobs, job(e2scen(fmt.Sprintf("E2-poolfirst-twoview-N4-x%d-%s-%s", x, role, an), 4, x, a, s12), per))
+			}
+			if x == prim1 {
+				// a restarted validator follows the others to the view in which it is the speaker and is then handed its
+				// own (pre)commit of the earlier view
+				s13 := E2Spec{Views: 2, Proposals: "A", Commits: "A", Bundles: true, Peers: []int{0, 1, 2, 3}, MaxDepth: 8, StateCap: cap1}
+				if a >= 0 {
+					s13.PreCommits = "A"
+				}
+				jobs = append(jobs, job(e2scen(fmt.Sprintf("E2-restarted-speaker-own-payloads-N4-x%d-%s-%s", x, role, an), 4, x, a, s13), per))
+			}
 			if x == other && a >= 0 {
 				// the pre-block is processed on M pre-commits of view 0 before X itself pre-committed, then the view
 				// changes (possible only with more than F faulty members or restarts, which a single node cannot know):
 				// in view 1 X still needs M pre-commits of *that* view before it may commit
-				s8 := E2Spec{Views: 2, Proposals: "A", Responses: "A", PreCommits: "A", Bundles: true, NoTimeout: true, TxA: []H{101}, TxA1: []H{101}, MaxDepth: 11, StateCap: cap1}
+				s8 := E2Spec{Views: 2, Proposals: "A", Responses: "A", PreCommits: "AG", Bundles: true, NoTimeout: true, TxA: []H{101}, TxA1: []H{101}, MaxDepth: 11, StateCap: cap1}
 				jobs = append(jobs, job(e2scen(fmt.Sprintf("E2-preblock-then-viewchange-N4-x%d-%s-%s", x, role, an), 4, x, a, s8), per))
 			}
 			if x == other {
@@ -400,6 +415,11 @@ func c11Jobs(tier string) []*Job {
 		sc.Sweep = true
 		jobs = append(jobs, job(sc, per))
 	}
+	// N=2: views v and v-2 share their speaker, so "a proposal for a lower view" can come from the current primary
+	spn := E2Spec{Views: 3, Proposals: "A", Responses: "A", CVs: 1, MaxDepth: 10, StateCap: cap}
+	scn := e2scen("C11-sweep-N2-x0", 2, 0, -1, spn)
+	scn.Sweep = true
+	jobs = append(jobs, job(scn, per))
 	// validator set (size, membership, own index) changes between heights; next-height traffic; ledger skip
 	sp := E2Spec{Views: 1, Proposals: "A", Responses: "A", Commits: "A", CVs: 1, NextHeight: true, OldHeight: true, Skip: true, Heights: 2, MaxDepth: 14, StateCap: cap}
 	sc := e2scen("C11-sweep-changing-validators", 4, 2, -1, sp)
